@@ -252,8 +252,36 @@ def mk_wcs(w):
     wcs.wcs.crval = [float(Fraction(v)) for v in w['crval']]
     wcs.wcs.cdelt = [float(Fraction(v)) for v in w['cdelt']]
     wcs.wcs.pc = [[float(Fraction(v)) for v in row] for row in w['pc']]
+    d = w.get('dist')
+    if d:
+        # distortions that astropy applies in mode 'all' only: SIP polynomials, or a lookup table ("distortion paper"
+        # CPDIS, or detector-to-image D2IM) covering crpix +- 50 px
+        from astropy.wcs import DistortionLookupTable, Sip
+        amp = [float(Fraction(v)) for v in d['amp']]
+        cx, cy = wcs.wcs.crpix
+        if d['kind'] == 'sip':
+            a = np.zeros((3, 3))
+            b = np.zeros((3, 3))
+            a[2, 0], a[1, 1], b[0, 2], b[1, 1] = amp[0] * 2.5e-4, -amp[1] * 1.25e-4, amp[2] * 3e-4, amp[3] * 2.5e-4
+            wcs.sip = Sip(a, b, None, None, wcs.wcs.crpix)
+        else:
+            yy, xx = np.mgrid[0:11, 0:11]
+            t1 = (amp[0] * np.sin(xx / 4.0) + amp[1] * np.cos(yy / 5.0)).astype(np.float32)
+            t2 = (amp[2] * np.cos(xx / 6.0) - amp[3] * np.sin(yy / 3.0)).astype(np.float32)
+            l1 = DistortionLookupTable(t1, (1, 1), (cx - 50, cy - 50), (10, 10))
+            l2 = DistortionLookupTable(t2, (1, 1), (cx - 50, cy - 50), (10, 10))
+            if d['kind'] == 'cpdis':
+                wcs.cpdis1, wcs.cpdis2 = l1, l2
+            else:
+                wcs.det2im1, wcs.det2im2 = l1, l2
     wcs.wcs.set()
     return wcs
+
+
+def rt_tol(w, mode):
+    """round-trip tolerance in pixels: 1e-6, or 1e-3 where astropy inverts a distortion iteratively
+    (all_world2pix, default tolerance 1e-4 px)."""
+    return Fraction(1, 10 ** 3) if (w.get('dist') and mode == 'all') else Fraction(1, 10 ** 6)
 
 
 def latfirst(w):
@@ -347,7 +375,9 @@ class Check(PropertyCheck):
             'to_sky with varying (wcs object, origin, mode), from_sky of the last result in another convention, in-place edits of an '
             'element of pc.x / pc.y, separation / rotate twice with the same argument objects, copy() / copy.deepcopy / copy.copy called '
             'repeatedly on the object and on a twin holding the same x/y arrays with edits of the original and of single copies in between '
-            '(every copy = the current values, shares no memory with the original or any other copy, is unaffected by later edits) - every call compared with the '
+            '(every copy = the current values, shares no memory with the original or any other copy, is unaffected by later edits), rotate called '
+            'repeatedly with ONE angle object (Quantity / Angle) modified in place between the calls (+=, *=, angle[...] = v) on this and on another '
+            'coordinate, each checked against the rotation by the current value of the angle object - every call compared with the '
             'answer for that call on the current values, receiver and arguments unchanged. Non-trivial = the constructor succeeded on a non-empty coordinate.')
     assumptions = [
         'numpy broadcasting (shape rule and broadcast values) is the standard right-aligned rule stated in Impl/PixCoord.lean '
@@ -587,9 +617,25 @@ class Check(PropertyCheck):
         lat = 0.0 if proj == 'CAR' else rng.choice([0.0, rng.uniform(-80, 80), rng.uniform(-80, 80), 89.0, -89.5])
         lon = rng.choice([0.0, 359.9, rng.uniform(0, 360), rng.uniform(0, 360)])
         crval = [frac(Fraction(lon)), frac(Fraction(lat))]
-        if rng.random() < 0.3:      # latitude-first celestial WCS (DEC, RA) / (GLAT, GLON)
+        dist = None
+        r = rng.random()
+        if r < 0.3:      # latitude-first celestial WCS (DEC, RA) / (GLAT, GLON)
             ctype = ctype[::-1]
             crval = crval[::-1]
+        elif r < 0.55:   # a distortion that only mode 'all' applies: SIP, CPDIS lookup table, D2IM lookup table
+            kind = rng.choice(['sip', 'cpdis', 'cpdis', 'det2im'])
+            if kind == 'sip':
+                proj = 'TAN'
+                ctype = ['RA---TAN-SIP', 'DEC--TAN-SIP']
+                lat = min(max(lat, -80.0), 80.0)
+                crval = [frac(Fraction(lon)), frac(Fraction(lat))]
+            dist = {'kind': kind, 'amp': [frac(Fraction(rng.randint(2, 8), 8) * rng.choice([1, -1])) for _ in range(4)]}
+        if dist:
+            return {'ctype': ctype, 'dist': dist,
+                    'crpix': [frac(Fraction(rng.randint(-400, 400), 4)), frac(Fraction(rng.randint(-400, 400), 4))],
+                    'crval': crval,
+                    'cdelt': [frac(Fraction(sx * scale)), frac(Fraction(sy * scale * rng.choice([1, 1, 0.7])))],
+                    'pc': [[frac(Fraction(v)) for v in row] for row in pc]}
         return {'ctype': ctype,
                 'crpix': [frac(Fraction(rng.randint(-400, 400), 4)), frac(Fraction(rng.randint(-400, 400), 4))],
                 'crval': crval,
@@ -744,6 +790,10 @@ class Check(PropertyCheck):
         editable = (not broadcast) and s != [] and prod(s) > 0
         steps = []
         copy_flavour = rng.random() < 0.4
+        angle_flavour = (not copy_flavour) and rng.random() < 0.4
+        angle0 = self._angle(rng)
+        if abs(Fraction(angle0['v'])) > 10 ** 6:
+            angle0 = self._angle(rng, 'deg')
         ncopies = 0
         def edit_step(attr_of=None):
             k = rng.choice(['x', 'y'])
@@ -752,7 +802,18 @@ class Check(PropertyCheck):
             return {'attr': k, 'idx': rng.randrange(prod(s)), 'val': frac(v)}
         for _ in range(rng.randint(3, 8)):
             r = rng.random()
-            if copy_flavour and r < 0.85:
+            if angle_flavour and r < 0.85:
+                # rotate with ONE angle object that is modified in place between the calls, on this and on another coordinate
+                unit = angle0['unit']
+                per_turn = {'deg': 360, 'rad': 2 * math.pi, 'arcmin': 21600, 'arcsec': 1296000, 'hourangle': 24}[unit]
+                kind = rng.choice(['none', 'iadd', 'iadd', 'imul', 'setitem'])
+                v = {'none': 0, 'iadd': per_turn * rng.choice([25 / 360, -0.125, 0.5, rng.uniform(-1, 1)]),
+                     'imul': rng.choice([2, -1, 0.5, 1.5, 3]), 'setitem': per_turn * rng.uniform(-1, 1)}[kind]
+                steps.append({'op': 'rotate_inplace', 'mod': {'kind': kind, 'v': frac(Fraction(float(v)))},
+                              'who': rng.choice(['self', 'self', 'other']),
+                              'o': self._coord_of_shape(rng, rng.choice([[], [2], s]), 'float'),
+                              'center': self._coord_of_shape(rng, [], 'float')})
+            elif copy_flavour and r < 0.85:
                 # copies of the same object (or of a twin holding the same x/y arrays), edits of the original between them,
                 # edits of one of the copies
                 r2 = rng.random()
@@ -783,7 +844,10 @@ class Check(PropertyCheck):
             else:
                 st = {'op': 'rotate', 'center': self._coord_of_shape(rng, [], 'float'), 'a': self._angle(rng)}
                 steps += [st, json_copy(st)]
-        return {'kind': 'history', 'p': p, 'wcss': [w0, w1], 'steps': steps}
+        c = {'kind': 'history', 'p': p, 'wcss': [w0, w1], 'steps': steps}
+        if angle_flavour:
+            c['angle0'] = dict(angle0, form=rng.choice(['quantity', 'angle']))
+        return c
 
     @staticmethod
     def _hist_state0(case):
@@ -803,7 +867,18 @@ class Check(PropertyCheck):
         last = None
         out = []
         copies = []
+        ang = float(Fraction(case['angle0']['v'])) if 'angle0' in case else None
         for step in case['steps']:
+            if step['op'] == 'rotate_inplace':
+                # the same float operations numpy performs on the 0-d Quantity, in its own unit
+                m = step['mod']
+                if m['kind'] == 'iadd':
+                    ang = ang + float(Fraction(m['v']))
+                elif m['kind'] == 'imul':
+                    ang = ang * float(Fraction(m['v']))
+                elif m['kind'] == 'setitem':
+                    ang = float(Fraction(m['v']))
+                step = dict(step, _ang={'v': frac(Fraction(ang)), 'unit': case['angle0']['unit'], 'form': 'quantity'})
             cur = {'shape': st['shape'], 'x': list(st['x']), 'y': list(st['y'])}
             if step['op'] == 'edit':
                 cur[step['attr']][step['idx']] = Fraction(step['val'])
@@ -898,6 +973,31 @@ class Check(PropertyCheck):
                     e = attempt(ed2)
                     if is_err(e):
                         r['edit'] = e
+            elif op == 'rotate_inplace':
+                import astropy.units as u
+                if 'angle' not in others:
+                    others['angle'] = mk_angle(case['angle0'])          # ONE angle object for the whole history
+                ang = others['angle']
+                m = step['mod']
+                def modify():
+                    a = ang
+                    v = float(Fraction(m['v']))
+                    if m['kind'] == 'iadd':
+                        a += v * a.unit
+                    elif m['kind'] == 'imul':
+                        a *= v
+                    elif m['kind'] == 'setitem':
+                        a[...] = v * a.unit
+                    return a is ang
+                e = attempt(modify)
+                if is_err(e) or not e:
+                    r['mod_failed'] = e
+                r['angle_now'] = [frac(float(ang.value)), str(ang.unit)]
+                tgt = p if step['who'] == 'self' else others.setdefault('o:' + json.dumps(step['o'], sort_keys=True), mk_coord(step['o']))
+                ctr = others.setdefault('c:' + json.dumps(step['center'], sort_keys=True), mk_coord(step['center']))
+                q = attempt(lambda: tgt.rotate(ctr, ang))
+                r['r'] = q if is_err(q) else canon_pc(q)
+                r['o_state'] = canon_pc(tgt)
             elif op == 'sep':
                 key = json.dumps(step['o'], sort_keys=True)
                 o = others.setdefault(key, mk_coord(step['o']))        # the SAME other object for the repeated call
@@ -940,6 +1040,10 @@ class Check(PropertyCheck):
                 reqs.append(dict(op='pc.ctor', **pj))
             elif op == 'copy':
                 reqs.append({'op': 'pc.copy', 'p': pj})
+            elif op == 'rotate_inplace':
+                c, s_ = cs_of(mk_angle(step['_ang']))
+                reqs.append({'op': 'pc.rotate', 'p': pj if step['who'] == 'self' else self._jc(step['o']),
+                             'center': self._jc(step['center']), 'c': frac(c), 's': frac(s_)})
             elif op == 'sep':
                 reqs.append({'op': 'pc.sep2', 'p': pj, 'q': self._jc(step['o'])})
             elif op == 'rotate':
@@ -969,6 +1073,8 @@ class Check(PropertyCheck):
                 m['state'] = dec_reply(replies[i]); i += 1
             elif op == 'copy':
                 m['copy'] = dec_reply(replies[i]); i += 1
+            elif op == 'rotate_inplace':
+                m['r'] = dec_reply(replies[i]); i += 1
             elif op == 'sep':
                 m['d2'] = dec_reply(replies[i], lambda j: [[int(n) for n in j['shape']], j['data']]); i += 1
             elif op == 'rotate':
@@ -1006,6 +1112,9 @@ class Check(PropertyCheck):
             elif op == 'copy':
                 if not same_pc(r['copy'], m['copy']):
                     return False
+            elif op == 'rotate_inplace':
+                if 'mod_failed' in r or not close_pc(r['r'], m['r'], scale * coord_scale(step['center'], step['o'])):
+                    return False
             elif op == 'sep':
                 if not self._sep_close(r['d'], m['d2']):
                     return False
@@ -1018,7 +1127,7 @@ class Check(PropertyCheck):
         V = []
         def bad(kind, detail, i):
             V.append({'kind': kind, 'detail': f'{detail} :: history step {i}: '
-                      f'{ {k: v for k, v in case["steps"][i].items() if k in ("op", "wcs", "origin", "mode", "attr", "idx", "val", "how", "who", "k")} }'
+                      f'{ {k: v for k, v in case["steps"][i].items() if k in ("op", "wcs", "origin", "mode", "attr", "idx", "val", "how", "who", "k", "mod")} }'
                       f' after {[s_["op"] + (str(s_.get("origin", "")) + s_.get("mode", "")) for s_ in case["steps"][:i]]}', 'step': i})
         if 'ctor' in real:
             if py_bshape(case['p']['x']['shape'], case['p']['y']['shape']) is not None:
@@ -1064,7 +1173,7 @@ class Check(PropertyCheck):
                 if is_err(b):
                     bad('from_sky_raised', b, i)
                 elif b['shape'] != S or b['scalar'] != (S == []) or \
-                        not all(abs(num(u) - v) <= Fraction(1, 10 ** 6) for u, v in zip(b['x'] + b['y'], X + Y)):
+                        not all(abs(num(u) - v) <= rt_tol(case['wcss'][step['wcs']], step['mode']) for u, v in zip(b['x'] + b['y'], X + Y)):
                     bad('sky_roundtrip_values', f"back x={[float(num(v)) for v in b['x'][:4]]} y={[float(num(v)) for v in b['y'][:4]]} "
                         f"start x={[float(v) for v in X[:4]]} y={[float(v) for v in Y[:4]]} origin={step['origin']} mode={step['mode']}", i)
             elif op == 'from_sky':
@@ -1073,11 +1182,12 @@ class Check(PropertyCheck):
                 if is_err(b):
                     bad('from_sky_raised', b, i)
                     continue
-                if ls['wcs'] == step['wcs'] or case['wcss'][0] == case['wcss'][1]:
+                if (ls['wcs'] == step['wcs'] or case['wcss'][0] == case['wcss'][1]) and \
+                        (ls['mode'] == step['mode'] or not case['wcss'][step['wcs']].get('dist')):
                     # same WCS: the pixel position in the other origin convention is shifted by the origin difference
                     sh = step['origin'] - ls['origin']
                     ex, ey = [v + sh for v in lst['x']], [v + sh for v in lst['y']]
-                    if b['shape'] != lst['shape'] or not all(abs(num(u) - v) <= Fraction(1, 10 ** 6) for u, v in zip(b['x'] + b['y'], ex + ey)):
+                    if b['shape'] != lst['shape'] or not all(abs(num(u) - v) <= max(rt_tol(case['wcss'][step['wcs']], step['mode']), rt_tol(case['wcss'][ls['wcs']], ls['mode'])) for u, v in zip(b['x'] + b['y'], ex + ey)):
                         bad('from_sky_origin_shift', f"x={[float(num(v)) for v in b['x'][:4]]} expected {[float(v) for v in ex[:4]]}", i)
             elif op == 'edit':
                 if 'edit' in r:
@@ -1100,6 +1210,33 @@ class Check(PropertyCheck):
             elif op == 'copy_edit':
                 if 'edit' in r:
                     bad('edit_of_copy_failed', r['edit'], i)
+            elif op == 'rotate_inplace':
+                if 'mod_failed' in r:
+                    bad('angle_modification_failed', r['mod_failed'], i)
+                    return V
+                want = step['_ang']
+                if Fraction(r['angle_now'][0]) != Fraction(want['v']):
+                    bad('harness_angle_tracking', f"angle object holds {float(Fraction(r['angle_now'][0]))} {r['angle_now'][1]}, tracked {float(Fraction(want['v']))}", i)
+                    return V
+                q = r['r']
+                if step['who'] == 'self':
+                    TS, TX, TY = S, X, Y
+                else:
+                    TS, TX, TY = self._hist_state0({'p': step['o']}).values()
+                _, xc, yc = self._hist_state0({'p': step['center']}).values()
+                if is_err(q) or q['shape'] != TS:
+                    bad('rotate_raised_or_shape', q if is_err(q) else q['shape'], i)
+                    continue
+                c, s_ = cs_of(mk_angle(want))         # cos / sin of the angle's CURRENT value
+                tol = Fraction(TOL) * coord_scale(case['p'], step['o']) * coord_scale(step['center']) * 4
+                ex = [xc[0] + (c * (x - xc[0]) - s_ * (y - yc[0])) for x, y in zip(TX, TY)]
+                ey = [yc[0] + (s_ * (x - xc[0]) + c * (y - yc[0])) for x, y in zip(TX, TY)]
+                if not all(abs(num(u) - v) <= tol for u, v in zip(q['x'] + q['y'], ex + ey)):
+                    bad('rotate_not_by_current_angle', f"angle object now {float(Fraction(want['v']))} {want['unit']} (modified in place by "
+                        f"{step['mod']['kind']}): x={[float(num(v)) for v in q['x'][:4]]} expected {[float(v) for v in ex[:4]]}", i)
+                ro = r['o_state']
+                if [num(v) for v in ro['x']] != TX or [num(v) for v in ro['y']] != TY:
+                    bad('history_receiver_changed', f"rotated object: x={ro['x'][:4]}", i)
             elif op == 'sep':
                 d = r['d']
                 so, xo, yo = self._hist_state0({'p': step['o']}).values()
@@ -1932,7 +2069,7 @@ class Check(PropertyCheck):
             if is_err(b):
                 bad('from_sky_raised', b)
                 return V
-            check_pc('sky_roundtrip', b, st['shape'], fr(st['x']), fr(st['y']), Fraction(1, 10 ** 6))
+            check_pc('sky_roundtrip', b, st['shape'], fr(st['x']), fr(st['y']), rt_tol(case['wcs'], case['mode']))
             return V
         return V
 
